@@ -101,7 +101,7 @@ MInit(o) == [MZero EXCEPT !.cfg = o.cfg, !.prev = o.snap,
 (***************************************************************************)
 IsFinalEv(e) == \/ e.k = "retry"
                 \/ e.k = "failed"
-                \/ (e.k = "recvd" /\ e.cls # "indication")
+                \/ (e.k = "recvd" /\ e.cls \in {"success", "error"})   \* only a response is an outcome
 FinalIds(o) == {o.ev[i].id : i \in {i \in DOMAIN o.ev : IsFinalEv(o.ev[i])}}
 OutEvs(o) == SelectSeq(o.ev, LAMBDA e : e.k = "out")
 RtoEvs(o) == SelectSeq(o.ev, LAMBDA e : e.k = "rto")
@@ -399,6 +399,12 @@ OkC05(m, o) ==
     \* a response for a request that is not awaiting one is discarded without events
     /\ (o.op = "recv" /\ IsResponse(o.arg.d) /\ o.arg.d.id \notin m.pend)
           => (o.res # "ok" /\ o.ev = <<>>)
+    \* what is delivered is what arrived, and it is a response or an indication: a request (for
+    \* instance the client's own packet reflected back) is never an outcome, whatever id it carries
+    /\ \A i \in DOMAIN o.ev :
+          (o.ev[i].k = "recvd") => /\ o.op = "recv" /\ o.arg.d.ok
+                                   /\ o.ev[i].cls = o.arg.d.cls
+                                   /\ o.ev[i].cls \in {"success", "error", "indication"}
     \* direct leak check through the snapshot hook: table and timer entries are exactly the
     \* pending requests, one timer entry each
     /\ SeqIds(o.snap.tx) = PendAfter(m, o)
